@@ -101,6 +101,8 @@ type hand struct {
 	phaseChg bool
 	cap      int
 	extra    int // deliveries after close
+	lastDelivery int64 // virtual time of the last delivery
+	stuck    bool  // nothing has been delivered for a long while: nobody finds anything to do
 }
 
 const (
@@ -374,6 +376,7 @@ func (h *hand) deliver(m *msg) {
 		}
 		crashAfter = x < h.fc.Restart/6
 	}
+	h.lastDelivery = h.loop.Now
 	st := sim.Step{T: h.loop.Now, Actor: m.actor, Op: m.op, Args: m.args, Fault: m.fault}
 	if st.Fault == "" && m.ver < r.srv.version {
 		st.Fault = "stale"
@@ -407,6 +410,15 @@ func (h *hand) deliver(m *msg) {
 
 func (h *hand) heartbeat() {
 	if h.r.dead || len(h.r.steps) >= h.cap {
+		return
+	}
+	// a hand in which no party finds anything to do for 80 heartbeats is
+	// stuck (for example nobody is offered an action): stop simulating, the
+	// oracles and the closer judge what is there - this is the system's
+	// behaviour, not a harness fault
+	if !h.closed() && h.loop.Now-h.lastDelivery > 80*usHeartbeat {
+		h.stuck = true
+		h.r.res.Count("probe.hand-stuck-no-party-can-move", 1)
 		return
 	}
 	if h.closed() && h.extra >= 2 {
@@ -482,7 +494,7 @@ func (h *hand) simulate() {
 		}
 	}
 	guard := 0
-	for !r.dead && h.loop.Step() {
+	for !r.dead && !h.stuck && h.loop.Step() {
 		guard++
 		if guard > 400000 {
 			r.res.Fault = "event-loop guard tripped"
